@@ -19,8 +19,8 @@ IdealTouched(k, d) ==
 
 MInit == \E c \in Cfgs, k \in StartKernels : 
             /\ (DOMAIN k = {} => c.ownsAll)        \* iptables: the built-in chains always exist
-            /\ cfg = c /\ kernel = k
-            /\ desired = [chains |-> [x \in {} |-> <<>>], force |-> {}, ins |-> [x \in KCh |-> <<>>], app |-> [x \in KCh |-> <<>>]]
+            /\ cfg = c /\ kernel = k /\ kmaps = [x \in {} |-> {}]
+            /\ desired = [chains |-> [x \in {} |-> <<>>], force |-> {}, maps |-> [x \in {} |-> {}], ins |-> [x \in KCh |-> <<>>], app |-> [x \in KCh |-> <<>>]]
             /\ belief = [stale |-> TRUE, due |-> TRUE]
             /\ phase = [inApply |-> FALSE, readFailed |-> FALSE, envFail |-> FALSE, notified |-> FALSE, consistent |-> TRUE]
             /\ known = {}
@@ -31,26 +31,32 @@ MRemoveChain == UNCHANGED nEdits /\ \E c \in DOMAIN desired.chains : RemoveChain
 MSetIns == UNCHANGED nEdits /\ \E k \in KCh, rs \in InsMenu : SetIns(k, rs)
 MSetApp == UNCHANGED nEdits /\ \E k \in KCh, rs \in AppMenu : SetApp(k, rs)
 MEdit == nEdits < MaxEdits /\ (EditInApply \/ Idle) /\ nEdits' = nEdits + 1 /\ \E e \in Edits : EditFn(kernel, e) # kernel /\ ExternalEdit(EditFn(kernel, e))
+\* verdict maps exist for nftables.Table only
+MSetMap == UNCHANGED nEdits /\ WithMaps /\ cfg.ownsAll /\ \E ms \in MapMenu : SetMap(FwMap, ms)
+MRemoveMap == UNCHANGED nEdits /\ WithMaps /\ cfg.ownsAll /\ FwMap \in DOMAIN desired.maps /\ RemoveMap(FwMap)
+MEditMap == /\ WithMaps /\ cfg.ownsAll /\ nEdits < MaxEdits /\ (EditInApply \/ Idle) /\ nEdits' = nEdits + 1
+            /\ \E e \in MapEdits : LET r == EditFnM(kernel, kmaps, e) IN
+                  (r[1] # kernel \/ r[2] # kmaps) /\ ExternalEditM(r[1], r[2])
 MTick == UNCHANGED nEdits /\ belief.stale /\ ~belief.due /\ Tick
 MRestart == UNCHANGED nEdits /\ Restart
 MApplyBegin == UNCHANGED nEdits /\ Consistent(desired) /\ ApplyBegin
 MReadOk == UNCHANGED nEdits /\ Read(TRUE)
 MReadFail == UNCHANGED nEdits /\ ~phase.envFail /\ Read(FALSE)
 \* the reference reconciler writes only with accurate knowledge
-MWriteOk == UNCHANGED nEdits /\ ~belief.stale /\ Write(TRUE, FALSE, Target(kernel, desired), IdealTouched(kernel, desired))
+MWriteOk == UNCHANGED nEdits /\ ~belief.stale /\ WriteM(TRUE, FALSE, Target(kernel, desired), desired.maps, IdealTouched(kernel, desired))
 MWriteFail == UNCHANGED nEdits /\ ~phase.envFail /\ Write(FALSE, TRUE, kernel, {})
 \* an implementation that does not look (no reason to) and does nothing
-MApplyEndOk == UNCHANGED nEdits /\ (~ConvergenceDue \/ Converged(kernel, desired)) /\ ApplyEnd(TRUE)
+MApplyEndOk == UNCHANGED nEdits /\ (~ConvergenceDue \/ ConvergedAll(kernel, kmaps, desired)) /\ ApplyEnd(TRUE)
 MApplyEndFail == UNCHANGED nEdits /\ phase.envFail /\ ApplyEnd(FALSE)
 
-MNext == \/ MEdit \/ MSetChain \/ MRemoveChain \/ MSetIns \/ MSetApp \/ MTick \/ MRestart
+MNext == \/ MEdit \/ MEditMap \/ MSetMap \/ MRemoveMap \/ MSetChain \/ MRemoveChain \/ MSetIns \/ MSetApp \/ MTick \/ MRestart
          \/ MApplyBegin \/ MReadOk \/ MReadFail \/ MWriteOk \/ MWriteFail \/ MApplyEndOk \/ MApplyEndFail
 
 Bound == \A c \in DOMAIN kernel : Len(kernel[c]) <= MaxLen
-MView == <<cfg, desired, kernel, belief, phase, nEdits>>
+MView == <<cfg, desired, kernel, kmaps, belief, phase, nEdits>>
 
 \* ---- invariants --------------------------------------------------------------------------------
-RuleOK(r) == r.h \in {"", "F", "STALE"} /\ r.id \in 1..9 /\ r.tgt \in {""} \cup OurChains \cup {"other"}
+RuleOK(r) == r.h \in {"", "F", "STALE"} /\ r.id \in 1..9 /\ r.tgt \in {"", "@" \o FwMap} \cup OurChains \cup {"other"}
 TypeOK ==
     /\ \A c \in DOMAIN kernel : \A i \in 1..Len(kernel[c]) : RuleOK(kernel[c][i])
     /\ DOMAIN desired.ins = KCh /\ DOMAIN desired.app = KCh
@@ -68,7 +74,7 @@ Witness ==
       /\ Minimal(kernel, desired, IdealTouched(kernel, desired))
 \* the reference reconciler can always finish an Apply it started (after reading)
 Satisfiable ==
-    (phase.inApply /\ ~belief.stale) => Converged(Target(kernel, desired), desired)
+    (phase.inApply /\ ~belief.stale /\ phase.consistent) => ConvergedAll(Target(kernel, desired), desired.maps, desired)
 \* convergence is not vacuous: when it holds, Felix content is really the desired one
 ConvergedMeans ==
     (Consistent(desired) /\ Converged(kernel, desired)) =>
